@@ -21,6 +21,8 @@ var zzC16Pages = []string{
 	// through another component, and as slot content of another component
 	/* 8 */ `<div><template include="d.vuego"></template><template include="wrapd.vuego"></template></div>`,
 	/* 9 */ `<div><template include="d.vuego"></template><template include="slotc.vuego"><template include="d.vuego"></template></template></div>`,
+	// v-once elements nested inside v-once elements are elements of their own
+	/* 10 */ `<section v-once><b v-once>AAA</b><i v-once>BBB</i></section><aside v-once><u v-once>EEE</u></aside>`,
 }
 
 // expected number of occurrences of each marker
@@ -35,6 +37,7 @@ var zzC16Want = []map[string]int{
 	{"AAA": 1, "EEE": 1},
 	{"DDD": 1, "WWW": 1},
 	{"DDD": 1, "SSS": 1},
+	{"AAA": 1, "BBB": 1, "EEE": 1},
 }
 
 // other directives the marked element may carry
@@ -49,7 +52,7 @@ func zzC16FS(extra string) *zzFS {
 		"slotc.vuego": `<section>SSS<slot></slot></section>`,
 	}
 	for i, p := range zzC16Pages {
-		files["p"+string(rune('0'+i))+".vuego"] = strings.ReplaceAll(p, "EXTRA", extra)
+		files["p"+string(rune('a'+i))+".vuego"] = strings.ReplaceAll(p, "EXTRA", extra)
 	}
 	files["e.vuego"] = strings.ReplaceAll(files["e.vuego"], "EXTRA", extra)
 	return newZZFS(files)
@@ -65,7 +68,7 @@ func VerifC16_Once() {
 	}
 	fsys := zzC16FS(extra)
 	tpl := NewFS(fsys).Fill(map[string]any{"items": []int{1, 2, 3}, "yes": true, "t": "T"})
-	name := "p" + string(rune('0'+k)) + ".vuego"
+	name := "p" + string(rune('a'+k)) + ".vuego"
 	render := func() (string, error) {
 		w := &zzWriter{limit: 1 << 20}
 		var err error
